@@ -643,9 +643,13 @@ class Engine:
         if base == 'into_iter' and len(args) == 1:
             a = args[0]
             by_ref = False
-            while a[0] in ('ref', 'K', 'der', 'named'):
+            while a[0] in ('ref', 'K', 'der', 'named') or (a[0] == 'call' and a[1].endswith(']>::iter') and len(a[2]) == 1):
                 if a[0] == 'named':
                     a = NAMED_CONSTS.get(a[1], ('unk',))
+                    continue
+                if a[0] == 'call':                       # `for x in arr.iter()`: the elements are visited by reference
+                    by_ref = True
+                    a = a[2][0]
                     continue
                 by_ref = by_ref or a[0] == 'ref'
                 a = self._read_lv(st, a[1]) if (a[0] == 'ref' and a[1][0] == 'L') else a[1]
@@ -1972,6 +1976,9 @@ def m_push_str(eng, st, args, info):
     cur = eng._read_lv(st, tgt[1])
     piece = args[1]
     while piece[0] in ('ref', 'K') or (piece[0] == 'der' and piece[1][0] in ('ref', 'K', 'call')):
+        if piece[0] == 'ref' and piece[1][0] == 'L':
+            piece = eng._read_lv(st, piece[1])          # `&temp` holding a String computed just before
+            continue
         piece = piece[1]          # the text pushed, not the reference to it
     eng._write_lv(st, tgt[1], concat(cur, piece), info['fn'], event=False)
     return [(st, UNIT)]
